@@ -126,3 +126,60 @@ def CompactFmt.expect (f : CompactFmt) (t dflt : DT) : DT :=
   | .date => { t with hh := dflt.hh, mm := dflt.mm, ss := dflt.ss, us := dflt.us }
 
 end PT
+
+namespace PT
+
+def MON_ABBR : List (List Char) :=
+  ["Jan", "Feb", "Mar", "Apr", "May", "Jun", "Jul", "Aug", "Sep", "Oct", "Nov", "Dec"].map String.toList
+def MON_FULL : List (List Char) :=
+  ["January", "February", "March", "April", "May", "June", "July", "August", "September", "October", "November",
+   "December"].map String.toList
+def WD_ABBR : List (List Char) := ["Mon", "Tue", "Wed", "Thu", "Fri", "Sat", "Sun"].map String.toList
+
+/-- `MON[m - 1]`, `MONL[m - 1]`, `WD[w]` -/
+def monAbbr (m : Nat) : List Char := MON_ABBR.getD (m - 1) []
+def monFull (m : Nat) : List Char := MON_FULL.getD (m - 1) []
+def wdAbbr (w : Nat) : List Char := WD_ABBR.getD w []
+
+/-- `'%d' % n` for `n < 100` -/
+def dec12 (n : Nat) : List Char := if n < 10 then [digitChar n] else pad2 n
+/-- `'%2d' % n` for `n < 100` (space padded) -/
+def sp2 (n : Nat) : List Char := if n < 10 then [' ', digitChar n] else pad2 n
+
+def hmsColon (t : DT) : List Char := pad2 t.hh.toNat ++ [':'] ++ pad2 t.mm.toNat ++ [':'] ++ pad2 t.ss.toNat
+
+/-- month-name renderings (`w` = any weekday index 0..6: the parser ignores it when a day is given) -/
+inductive MonFmt where
+  | ctime (w : Nat)        -- Www Mmm dd HH:MM:SS YYYY      (day space-padded, as C's ctime)
+  | rfc2822 (w : Nat)      -- Www, DD Mmm YYYY HH:MM:SS<offset>
+  | longDate               -- Month D, YYYY
+  | dMonY                  -- D Mon YYYY
+  | ddMonY                 -- DD-Mon-YYYY
+  deriving Repr, DecidableEq
+
+def renderMon (f : MonFmt) (t : DT) (off : Off) : List Char :=
+  match f with
+  | .ctime w => wdAbbr w ++ [' '] ++ monAbbr t.m.toNat ++ [' '] ++ sp2 t.d.toNat ++ [' '] ++ hmsColon t ++ [' '] ++ pad4 t.y.toNat
+  | .rfc2822 w => wdAbbr w ++ [',', ' '] ++ pad2 t.d.toNat ++ [' '] ++ monAbbr t.m.toNat ++ [' '] ++ pad4 t.y.toNat ++ [' '] ++
+      hmsColon t ++ off.render
+  | .longDate => monFull t.m.toNat ++ [' '] ++ dec12 t.d.toNat ++ [',', ' '] ++ pad4 t.y.toNat
+  | .dMonY => dec12 t.d.toNat ++ [' '] ++ monAbbr t.m.toNat ++ [' '] ++ pad4 t.y.toNat
+  | .ddMonY => pad2 t.d.toNat ++ ['-'] ++ monAbbr t.m.toNat ++ ['-'] ++ pad4 t.y.toNat
+
+/-- which fields the text names -/
+def MonFmt.expect (f : MonFmt) (t dflt : DT) : DT :=
+  match f with
+  | .ctime _ => { t with us := 0 }
+  | .rfc2822 _ => { t with us := 0 }
+  | _ => { t with hh := dflt.hh, mm := dflt.mm, ss := dflt.ss, us := dflt.us }
+
+/-- D-C02 excludes years below 100 wherever the year reaches `_ymd.append` as a Decimal -/
+def MonFmt.Dom (f : MonFmt) (t : DT) : Prop :=
+  match f with
+  | .ctime w => w < 7 ∧ 100 ≤ t.y
+  | .rfc2822 w => w < 7 ∧ 100 ≤ t.y
+  | .longDate => 100 ≤ t.y
+  | .dMonY => 100 ≤ t.y
+  | .ddMonY => True
+
+end PT
